@@ -31,6 +31,8 @@
   §10 the HTTP log mode: the logger as a wrapper around the relayed body (`wrapBody`), transparency.
   §11 `middleware.parseBasicAuth` as Go executes it (slice and index expressions with their bound checks,
       a `panic` outcome), the basic-auth decision on a field value; the `strings.Fields` way of writing it.
+  §12 (Model/C12Dial.lean) the dialer's retry loop (`net.go` `Dialer.dialContext` / `DialContext`) as a pure
+      function of the attempt outcomes and of the points at which the caller's context is done.
 -/
 import FwdVerif.Model.Resp
 import FwdVerif.Model.RespSpec
@@ -50,12 +52,14 @@ open Req (bs hget goGet removeHopByHop natToDec lowerFields)
 inductive NetOp where
   | dial | read | write | remoteError | localError
   | proxyconnect   -- `http.Transport` wraps every failure to reach the configured proxy (dial, TLS to an https proxy)
+  | socksConnect   -- `golang.org/x/net/internal/socks` wraps the failure to reach a SOCKS5 proxy: `socks connect tcp …`
   deriving DecidableEq, Repr
 
 def NetOp.text : NetOp → String
   | .dial => "dial" | .read => "read" | .write => "write"
   | .remoteError => "remote error" | .localError => "local error"
   | .proxyconnect => "proxyconnect"
+  | .socksConnect => "socks connect"
 
 /-- Everything the handlers look at.  One Go error chain can satisfy several of the tests at once
     (a TLS alert arrives wrapped in a `*net.OpError`; an `ErrorStatus` may wrap anything), which is
